@@ -132,7 +132,9 @@ impl Prop for PPrintf {
             }
         }
         // one case in three: names of two- and three-byte characters (a column is so many characters wide, not bytes)
-        if idx % 3 == 1 {
+        // (not where a link's text was written with the old names in it)
+        let texts = arr(&v["tree"]).iter().any(|t| t.get("text").map(|x| !x.is_null()).unwrap_or(false));
+        if idx % 3 == 1 && !texts {
             for i in 0..n {
                 if rng.chance(1, 2) {
                     let base = *rng.pick(&["é", "日本", "dé", "ü", "€uro"]);
@@ -144,7 +146,15 @@ impl Prop for PPrintf {
             for r in v["roots"].as_array_mut().unwrap() {
                 let k = r["node"].as_u64().unwrap_or(0) as usize;
                 if k > 0 {
-                    let nm = json_to_string(&tree_copy[k - 1]["name"]);
+                    // (a starting point may lie below the working directory: hd/hroot)
+                    let mut comps = vec![];
+                    let mut j = k;
+                    while j != 0 {
+                        comps.push(json_to_string(&tree_copy[j - 1]["name"]));
+                        j = tree_copy[j - 1]["parent"].as_u64().unwrap_or(0) as usize;
+                    }
+                    comps.reverse();
+                    let nm = comps.join("/");
                     r["spell"] = str_to_json(&if nm.starts_with('-') { format!("./{}", nm) } else { nm });
                 }
             }
